@@ -34,6 +34,9 @@ def install_seams():
     from .sched import install_lock_seam
 
     install_lock_seam()
+    # one process-wide filter: warnings.catch_warnings() mutates global state and is not
+    # thread-safe, so it must never be entered from simulated threads
+    warnings.simplefilter("ignore")
     import hdc.algo  # noqa: F401  (after the lock seam so hdc-created locks are simulator-aware)
 
     daskexec.install()
@@ -155,7 +158,7 @@ def run_A(scn, cfg, chooser, ref_cache=None):
     except Exception as e:  # noqa: BLE001
         build_exc = e
 
-    sim = Sim(chooser, max_steps=20000, preempt=cfg["preempt"], stall=cfg["stall"], log_lines=True)
+    sim = Sim(chooser, max_steps=50000, preempt=cfg["preempt"], stall=cfg["stall"], log_lines=True)
     comp_exc = None
     computed = None
     ex = None
@@ -168,13 +171,14 @@ def run_A(scn, cfg, chooser, ref_cache=None):
                 proxies.set_target(k, proxies.make_cold(k, cfg["slow_steps"], stats))
 
             def body():
-                with warnings.catch_warnings():
-                    warnings.simplefilter("ignore")
+                if True:  # warnings are silenced process-wide (catch_warnings is not thread-safe)
                     (out,) = dask.compute(lazy_res, scheduler=get, optimize_graph=cfg["optimize_graph"])
                 return out
 
             computed = sim.run(body)
-        except (StepLimit, HarnessInconclusive) as e:
+        except StepLimit:
+            rr.outcome = "step-cap"  # a bound of the exploration, neither error nor violation
+        except HarnessInconclusive as e:
             rr.harness = _exc_str(e)
         except Deadlock as e:
             rr.violations.append(("deadlock", str(e)))
@@ -197,6 +201,8 @@ def run_A(scn, cfg, chooser, ref_cache=None):
     rr.counters["cold_concurrent_compiles"] = stats.concurrent_compiles
     if rr.harness:
         rr.outcome = "harness"
+        return rr
+    if rr.outcome == "step-cap":
         return rr
 
     # ---- O3: inputs untouched ---------------------------------------------
@@ -250,8 +256,7 @@ def run_A(scn, cfg, chooser, ref_cache=None):
         for k, fn in cold_targets.items():
             proxies.set_target(k, fn)
         try:
-            with warnings.catch_warnings():
-                warnings.simplefilter("ignore")
+            if True:  # warnings are silenced process-wide (catch_warnings is not thread-safe)
                 again = S.normalise(S.apply_op(scn, cube, lazy=False))
             for cls, msg in S.compare(ref, again):
                 rr.violations.append((f"primed-wrapper-differs-{cls}", msg))
